@@ -367,6 +367,10 @@ H("C07", "vk_fsop", "c07_open_r_trunc", tier="thorough", desc=_od, bounds="targe
 H("C07", "vk_fsop", "c07_open_r_create", tier="thorough", desc=_od, bounds="target R, mode create", unwindset=UW_OPEN6, timeout=1500, cost=3, mem_gb=20)
 H("C07", "vk_fsop", "c07_open_r_create_or_trunc", tier="thorough", mem_est=30, desc=_od, bounds="target R, mode create_or_trunc", unwindset=UW_OPEN6, timeout=1500, cost=3, mem_gb=44)
 H("C07", "vk_fsop", "c07_open_r_create_or_append", tier="thorough", mem_est=30, desc=_od, bounds="target R, mode create_or_append", unwindset=UW_OPEN6, timeout=1500, cost=3, mem_gb=44)
+_odc = "read-only-attribute file opened in a writing mode: Err(ReadOnly), nothing written, tables unchanged, and neither truncate_cluster_chain nor write_new_directory_entry is reached (both replaced by counting stubs so the query stays small when the refusal is missing)"
+H("C07", "vk_fsop", "c07_open_r_trunc_cut", desc=_odc, bounds="target R, mode trunc; truncation and entry creation stubbed", kani_args=["-Z", "stubbing"], unwindset=UW_OPEN6, timeout=1500, cost=3, mem_gb=20)
+H("C07", "vk_fsop", "c07_open_r_create_or_trunc_cut", desc=_odc, bounds="target R, mode create_or_trunc; truncation and entry creation stubbed", kani_args=["-Z", "stubbing"], unwindset=UW_OPEN6, timeout=1500, cost=3, mem_gb=20)
+H("C07", "vk_fsop", "c07_open_r_create_or_append_cut", desc=_odc, bounds="target R, mode create_or_append; truncation and entry creation stubbed", kani_args=["-Z", "stubbing"], unwindset=UW_OPEN6, timeout=1500, cost=3, mem_gb=20)
 H("C07", "vk_fsop", "c07_open_d_ro", desc=_od, bounds="target D, mode ro", unwindset=UW_OPEN6, timeout=1500, cost=3, mem_gb=20)
 H("C07", "vk_fsop", "c07_open_d_append", tier="thorough", desc=_od, bounds="target D, mode append", unwindset=UW_OPEN6, timeout=1500, cost=3, mem_gb=20)
 H("C07", "vk_fsop", "c07_open_d_trunc", tier="thorough", desc=_od, bounds="target D, mode trunc", unwindset=UW_OPEN6, timeout=1500, cost=3, mem_gb=20)
@@ -550,5 +554,7 @@ for n, t in [("c11_read_fault_fat", "thorough"), ("c11_read_fault_second_block",
     H("C11", "vk_fsop", n, tier=t, desc="VolumeManager::read across a cluster boundary with one failing, scribbling device call (data block / FAT sector / second data block): DeviceError reported; handle still usable; after seeking back the retried read returns the file's bytes", bounds="file contents fully symbolic; chain 3->5->2, offset 510, 4 bytes; fault index concrete per instance", unwindset=UW_FILE, timeout=1200, cost=3, mem_gb=24)
 PROPS["C11"]["bounds"] += "; VolumeManager::read across a cluster boundary with the fault on the data block / the FAT sector / the second data block, then seek back and retry"
 
+for n in ["c07_full_table_refused_create_cut", "c07_full_table_refused_truncate_cut", "c07_full_table_refused_append_cut"]:
+    H("C07", "vk_vm", n, desc="open_file_in_dir with the open-file table full (name missing + create / name present + truncate / + append): TooManyOpenFiles, state unchanged, nothing written, and neither entry creation, truncation nor entry rewrite is reached (these and the lookup replaced by stubs that succeed)", bounds="one volume, one directory, two open files; handle values symbolic; find_directory_entry / write_new_directory_entry / truncate_cluster_chain / write_entry_to_disk stubbed", kani_args=["-Z", "stubbing"], unwindset=UW_OPEN6, timeout=1200, cost=2, mem_gb=20)
 for n in ["c07_full_table_refused_create", "c07_full_table_refused_truncate"]:
-    H("C07", "vk_vm", n, desc="open_file_in_dir with the open-file table full (create / truncate mode): TooManyOpenFiles before anything is read, written or changed", bounds="one volume, one directory, two open files; handle values symbolic", unwindset=UW_OPEN6, timeout=1200, cost=2, mem_gb=20)
+    H("C07", "vk_vm", n, desc="open_file_in_dir with the open-file table full (create / truncate mode): an error (TooManyOpenFiles if the always-failing device was not read), nothing written, state unchanged", bounds="one volume, one directory, two open files; handle values symbolic", unwindset=UW_OPEN6, timeout=1200, cost=2, mem_gb=20)
